@@ -31,7 +31,7 @@ ID = "C03"
 LEVEL = "proof"
 TECHNIQUE = "symbolic execution of the real forward() and backward() with CPML layers of symbolic thickness; one-step reverse-sweep invariant proved pointwise (z3 / ite-split ring normal form)"
 MODULES = K.SOLVER_MODULES
-FILES = K.SOLVER_FILES + ["src/fdtdx/objects/boundaries/perfectly_matched_layer.py", "src/fdtdx/interfaces/recorder.py"]
+FILES = K.SOLVER_FILES + ["src/fdtdx/objects/boundaries/perfectly_matched_layer.py", "src/fdtdx/interfaces/recorder.py", "src/fdtdx/objects/sources/tfsf.py", "src/fdtdx/objects/sources/dipole.py"]
 FUNCTIONS = [
     "fdtdx.fdtd.forward.forward (record_boundaries=True)",
     "fdtdx.fdtd.backward.backward",
@@ -43,6 +43,7 @@ FUNCTIONS = [
     "fdtdx.fdtd.update.update_E / update_H / update_E_reverse / update_H_reverse",
 ]
 STUBS = [
+    "source set-up arrays (incident profiles, time offsets) and switch schedule arrays arbitrary (contract of `apply` / OnOffSwitch, C14); temporal profile uninterpreted",
     "Recorder.compress/decompress: lossless store/load of the dictionary of interface arrays keyed by time step (contract proved for the shipped pipelines under C30)",
     "PML coefficient arrays pml_a/b_E/H (result of place_on_grid): arbitrary, with a = 0 on the inner-face row (default grading sigma(0) = 0) and kappa = 1",
 ]
@@ -125,13 +126,24 @@ def _task(spec):
             for d in "-+":
                 if (ax, d) in thick:
                     c.assume((thick[(ax, d)] <= shape[ax]).z)
-        objs = scene.make_objects(shape, cfg, bnds)
+        T = K.sym_time_total()
+        srcs = []
+        for sd in spec.get("sources", []):
+            if sd[0] == "plane":
+                _, cls, sax, sdir, gated = sd
+                src, _ = K.make_plane_source(cls, shape, cfg, sax, sdir, T, gated=gated)
+            else:
+                _, st, pol, gated, rot = sd
+                src, _ = K.make_dipole(shape, cfg, T, source_type=st, polarization=pol, gated=gated, rotated=rot)
+            srcs.append(src)
+        objs = scene.make_objects(shape, cfg, bnds, srcs)
         Ef, Hf = K.wall_facts(tuple((lo if lo != "pml" else None, hi if hi != "pml" else None) for lo, hi in assign), shape)
         arr = scene.make_arrays(shape, eps_tier=spec["eps"], mu_tier=spec["mu"], psi=(psiE, psiH), E_fact=Ef, H_fact=Hf, recording_state=object())
         inp.array("E", arr.fields.E)
         inp.array("H", arr.fields.H)
         inp.note("spec", {k: str(v) for k, v in spec.items()})
         t_arr, t = K.time_scalar("t")
+        c.assume((t < T).z)
 
         def in_pml(idx):
             res = False
@@ -197,4 +209,112 @@ def tasks(tier, seed):
         for e, m in [(1, "scalar"), (3, 3)] if (tier == "thorough" or a in assigns[:3]) else [(3, 1)]:
             for part in ("E0", "E1", "E2", "H0", "H1", "H2", "rest"):
                 out[f"{K.bnd_label(a)}/e{e}m{m}/{part}"] = Task(_task(dict(bnd=a, eps=e, mu=m, part=part)), max_paths=512)
+    # sources ("random initial interior fields and sources"): always-on and gated, E- and H-injecting; the
+    # reverse sweep must remove exactly what the forward step injected, anywhere relative to the layers
+    src_sets = [
+        [("plane", "UniformPlaneSource", 2, "+", True)],
+        [("dipole", "magnetic", 0, True, False)],
+        [("plane", "GaussianPlaneSource", 0, "-", False), ("dipole", "electric", 1, True, False)],
+    ]
+    if tier == "quick":
+        src_sets = src_sets[:2]
+    else:
+        src_sets += [[("plane", "UniformPlaneSource", 1, "-", True), ("dipole", "magnetic", 2, True, True)], [("dipole", "electric", 2, False, True)]]
+    src_assigns = [((None, None), ("periodic", "periodic"), (L, None)), (("pec", L), ("pmc", L), (L, "pec")), ((L, L), (None, None), (None, None))]
+    for i, ss in enumerate(src_sets):
+        a = src_assigns[i % 3]
+        lab = "+".join("_".join(str(x) for x in s_) for s_ in ss)
+        e, m = (3, 1) if i % 3 == 1 else (1, "scalar")
+        for part in ("E0", "E1", "E2", "H0", "H1", "H2", "rest"):
+            out[f"src/{lab}/{K.bnd_label(a)}/e{e}m{m}/{part}"] = Task(_task(dict(bnd=a, eps=e, mu=m, part=part, sources=ss)), max_paths=512)
     return out
+
+
+# ---------------------------------------------------------------------------------------------
+# replay on the real code (public API, real JAX)
+
+
+def replay(key, obligation, witness):
+    """REAL place_objects / forward(record_boundaries=True) / backward on a small scene built through the public
+    API with the refuted task's boundary kinds (faces the task leaves open become PEC) and sources (gated ones
+    on during steps 3..7): 10 forward steps from random interior fields, then the reverse sweep; compares E, H
+    outside the absorbing layers with the stored forward states at every step"""
+    import jax
+    import jax.numpy as jnp
+    import numpy as np
+
+    import fdtdx
+    from fdtdx.fdtd.backward import backward
+    from fdtdx.fdtd.forward import forward
+
+    spec = K.parse_spec((witness or {}).get("notes")) or {}
+    bnd = spec.get("bnd") or (("pml", "pml"), (None, None), (None, None))
+    names = [("minx", "maxx"), ("miny", "maxy"), ("minz", "maxz")]
+    kw, thick = {}, {}
+    for ax, (lo, hi) in enumerate(bnd):
+        for kind, nm, th in ((lo, names[ax][0], 2 + ax % 2), (hi, names[ax][1], 3)):
+            k = kind or "pec"
+            if "periodic" in (lo, hi):
+                k = "periodic"
+            kw[f"boundary_type_{nm}"] = k
+            if k == "pml":
+                kw[f"thickness_grid_{nm}"] = th
+                thick[nm] = th
+    n_steps, details, bad = 10, [], False
+    cfg = fdtdx.SimulationConfig(time=40e-15, grid=fdtdx.UniformGrid(spacing=50e-9), backend="cpu", dtype=jnp.float64, courant_factor=0.99, gradient_config=fdtdx.GradientConfig(method="reversible", recorder=fdtdx.Recorder(modules=[])))
+    dt = cfg.time_step_duration
+    inner = (6, 5, 6)
+    full_shape = tuple(inner[a] + thick.get(names[a][0], 0) + thick.get(names[a][1], 0) for a in range(3))
+    vol = fdtdx.SimulationVolume(partial_grid_shape=full_shape)
+    objs, cons = [vol], []
+    bdict, c_list = fdtdx.boundary_objects_from_config(fdtdx.BoundaryConfig(**kw), vol)
+    objs += list(bdict.values())
+    cons += c_list
+    window = fdtdx.OnOffSwitch(start_time=2.5 * dt, end_time=7.5 * dt)
+    sources = spec.get("sources") or [("dipole", "magnetic", 1, True, False), ("plane", "UniformPlaneSource", 2, "+", True)]
+    for i, sd in enumerate(sources):
+        gated = {"switch": window} if sd[3 if sd[0] == "dipole" else 4] else {}
+        if sd[0] == "plane":
+            _, cls, sax, sdir, _g = sd
+            skw = {"radius": 2e-7} if cls == "GaussianPlaneSource" else {}
+            shp = [None, None, None]
+            shp[sax] = 1
+            src = getattr(fdtdx, cls)(name=f"src{i}", wave_character=fdtdx.WaveCharacter(wavelength=800e-9), direction=sdir, partial_grid_shape=tuple(shp), fixed_E_polarization_vector=tuple(1 if a == (sax + 1) % 3 else 0 for a in range(3)), **skw, **gated)
+            cons.append(src.set_grid_coordinates(axes=(sax,), sides=("-",), coordinates=(thick.get(names[sax][0], 0) + 2,)))
+            cons += [src.same_size(vol, axes=tuple(a for a in range(3) if a != sax)), src.place_at_center(vol, axes=tuple(a for a in range(3) if a != sax))]
+        else:
+            _, st, pol, _g, _rot = sd
+            src = fdtdx.PointDipoleSource(name=f"src{i}", partial_grid_shape=(1, 1, 1), wave_character=fdtdx.WaveCharacter(wavelength=800e-9), polarization=pol, source_type=st, amplitude=1.0, **gated)
+            cons.append(src.set_grid_coordinates(axes=(0, 1, 2), sides=("-", "-", "-"), coordinates=tuple(thick.get(names[a][0], 0) + 2 + i for a in range(3))))
+        objs.append(src)
+    k0 = jax.random.PRNGKey(0)
+    oc, arrays, params, cfg, _ = fdtdx.place_objects(object_list=objs, config=cfg, constraints=cons, key=k0)
+    arrays, oc, _ = fdtdx.apply_params(arrays, oc, params, k0)
+    mask = np.ones(arrays.fields.E.shape[1:], dtype=bool)
+    for pml in oc.pml_objects:
+        mask[pml.grid_slice] = False
+    k1, k2 = jax.random.split(jax.random.PRNGKey(7))
+    m = jnp.asarray(mask)[None]
+    E = jax.random.normal(k1, arrays.fields.E.shape, dtype=arrays.fields.E.dtype) * m
+    H = jax.random.normal(k2, arrays.fields.H.shape, dtype=arrays.fields.H.dtype) * m
+    for b in oc.boundary_objects:
+        E, H = b.apply_post_E_update(E), b.apply_post_H_update(H)
+    arrays = arrays.aset("fields->E", E).aset("fields->H", H)
+    key2 = jax.random.PRNGKey(1)
+    state = (jnp.asarray(0, dtype=jnp.int32), arrays)
+    hist = [(np.asarray(E), np.asarray(H))]
+    for _ in range(n_steps):
+        state = forward(state, config=cfg, objects=oc, key=key2, record_detectors=False, record_boundaries=True, simulate_boundaries=True)
+        hist.append((np.asarray(state[1].fields.E), np.asarray(state[1].fields.H)))
+    scale = max(float(np.abs(e[:, mask]).max()) for e, _ in hist) + max(float(np.abs(h[:, mask]).max()) for _, h in hist)
+    worst, worst_t = 0.0, None
+    for _ in range(n_steps):
+        state = backward(state, config=cfg, objects=oc, key=key2, record_detectors=False, reset_fields=True)
+        t = int(state[0])
+        err = max(float(np.abs(np.asarray(state[1].fields.E) - hist[t][0])[:, mask].max()), float(np.abs(np.asarray(state[1].fields.H) - hist[t][1])[:, mask].max()))
+        if err > worst:
+            worst, worst_t = err, t
+    rel = worst / scale
+    details.append(f"volume {full_shape}, boundaries {kw}, sources {sources}: worst relative mismatch outside the layers over the reverse sweep {rel:.3e} (at step {worst_t}), final counter {int(state[0])}")
+    bad = rel > 1e-9 or int(state[0]) != 0
+    return bad, "\n".join(details)
